@@ -664,9 +664,9 @@ func fsConds() []cond {
 		{name: "ErrCancelled", err: ce.ErrCancelled, want: ce.ErrCancelled},
 		{name: "os.ErrDeadlineExceeded", err: os.ErrDeadlineExceeded, want: ce.ErrTimeout},
 		{name: "PathError(os.ErrDeadlineExceeded)", err: pe(os.ErrDeadlineExceeded), want: ce.ErrTimeout},
-		{name: "ETIMEDOUT", err: syscall.ETIMEDOUT, want: ce.ErrTimeout, bare: true},
-		{name: "PathError(ETIMEDOUT)", err: pe(syscall.ETIMEDOUT), want: ce.ErrTimeout, bare: true},
-		{name: "SyscallError(EAGAIN)", err: se(syscall.EAGAIN), want: ce.ErrTimeout, bare: true},
+		{name: "ETIMEDOUT", err: syscall.ETIMEDOUT, want: ce.ErrTimeout},
+		{name: "PathError(ETIMEDOUT)", err: pe(syscall.ETIMEDOUT), want: ce.ErrTimeout},
+		{name: "SyscallError(EAGAIN)", err: se(syscall.EAGAIN), want: ce.ErrTimeout},
 		{name: "text i/o timeout", err: errors.New("read tcp 1.2.3.4: i/o timeout"), want: ce.ErrTimeout},
 		{name: "os.ErrExist", err: os.ErrExist, want: ce.ErrExists},
 		{name: "afero.ErrFileExists", err: afero.ErrFileExists, want: ce.ErrExists},
